@@ -128,3 +128,49 @@ def uses_of_local(body, l):
         elif t[0] == "switch":
             scan_op(t[1], bb, ("switch", None))
     return out
+
+
+def backward_slice(body, operand, max_steps=400):
+    """locals and calls an operand's value may derive from (intraprocedural, through all defs, projections ignored).
+    returns (set(locals), [Call...], [cast statements])"""
+    seen, calls, casts = set(), [], []
+    work = []
+    if operand[0] in ("c", "m"):
+        work.append(operand[1][0])
+    steps = 0
+    while work and steps < max_steps:
+        steps += 1
+        l = work.pop()
+        if l in seen:
+            continue
+        seen.add(l)
+        for d in body.defs.get(l, []):
+            if d[0] == "call":
+                calls.append(d[2])
+                for a in d[2].args:
+                    if a[0] in ("c", "m"):
+                        work.append(a[1][0])
+            elif d[0] in ("stmt", "part"):
+                rv = d[3] if d[0] == "stmt" else d[4]
+                if rv and rv[0] == "cast":
+                    casts.append(rv)
+                for x in _rv_locals(rv):
+                    work.append(x)
+    return seen, calls, casts
+
+
+def _rv_locals(rv):
+    out = []
+
+    def walk(x):
+        if isinstance(x, list):
+            if len(x) == 2 and isinstance(x[0], int) and isinstance(x[1], list) and not isinstance(x[0], bool):
+                out.append(x[0])
+                for e in x[1]:
+                    if isinstance(e, list) and e and e[0] == "i":
+                        out.append(e[1])
+                return
+            for y in x:
+                walk(y)
+    walk(rv)
+    return out
